@@ -38,6 +38,10 @@ def run(c, a):
     evc = c.concat([p[1] for p in pairs], c.path("events-c06-ctor.ndjson"))
     c.sample_events(evc, 1, lambda l: '"SetVal"' in l and '"in":[' in l)
     c.trace("OpsTrace", evc)
+    import os
+    if os.environ.get("VERIF_C06_ONLY") == "ctor":      # debugging aid: the constructor family alone
+        c.rule_text = RULE
+        return
     # member lookups under every physical representation of the operands (non-normalized input strings and keys)
     from checks.opsfam import run_ops
     evo = run_ops(c, "call", ["Index", "GetAttr", "HasIndex", "Equals"])
